@@ -470,6 +470,18 @@ def monitors(tr, props):
             if comb == 'amb' and limit is None:
                 if items and not (items == p1 or items == p2 or all(x in p1 for x in items) or all(x in p2 for x in items)):
                     v.append(('C11', 'amb-two-winners', 'amb let two inputs through: %s' % items))
+    if finished and kind == 'merge3':
+        got = cbs.get('A', [])
+        items = [c[4] for c in got if c[3] == 'n']
+        allv = sum(meta['sources'].values(), [])
+        if sorted(items) != sorted(allv):
+            v.append(('C11', 'merge-items', 'merge of three delivered %s, inputs %s' % (items, meta['sources'])))
+        for name, src in meta['sources'].items():
+            if [x for x in items if x in src] != src:
+                v.append(('C11', 'merge-order', 'per-source order broken: %s' % items))
+        terms = [c[3] for c in got if c[3] in ('c', 'e')]
+        if terms != ['c'] or (got and got[-1][3] != 'c'):
+            v.append(('C11', 'merge-complete', 'merge of three: terminals %s, last %s' % (terms, got[-1][3] if got else None)))
     if finished and kind == 'subj_join':
         subj = meta['subject']
         srcs = meta['sources']
